@@ -198,6 +198,14 @@ impl Env {
         }
         let res = process::run(cwd, spec, call);
         let _ = std::env::set_current_dir("/");
+        if std::env::var_os("VERIF_DEBUG_TRACE").is_some() {
+            // debugging aid for replays: the recorded calls of every simulated process, on stderr
+            eprintln!("--- process: {} ; fired {:?}", res.status.short(), res.fired);
+            for e in &res.trace {
+                eprintln!("    {:>3} {} {} {} ret={} errno={} fault={:?}{}", e.seq, e.op.name(), e.path, e.path2, e.ret, e.errno, e.fault, if e.frozen { " (frozen)" } else { "" });
+            }
+            eprintln!("    stderr: {}", res.stderr.replace('\n', " | "));
+        }
         let after = world.snapshot();
         self.procs += 1;
         self.sim_ns += res.sim_ns;
@@ -322,13 +330,17 @@ pub fn case_seed(seed: u64, check: &str, i: u64) -> u64 {
     mix(seed, check, i)
 }
 
-pub fn worker(check: &dyn Check, tier: Tier, seed: u64, k: u64, n: u64, limit: Option<u64>, no_min: bool) {
+pub fn worker(check: &dyn Check, tier: Tier, seed: u64, k: u64, n: u64, limit: Option<u64>, no_min: bool, start_from: u64) {
     let mut env = Env::new(&format!("{}-w{:02}", check.id(), k));
     let findings = load_findings();
     let total = limit.unwrap_or_else(|| check.cases(tier));
     let out = std::io::stdout();
     let mut minimised: BTreeMap<String, u32> = BTreeMap::new();
     let mut i = k;
+    // (a worker restarted after the process died in one of its cases goes on behind that case)
+    while i < start_from {
+        i += n;
+    }
     while i < total {
         let case = check.gen(seed, i, tier);
         env.take_digest();
@@ -414,14 +426,24 @@ pub struct Merged {
     pub intercepts: BTreeMap<String, u64>,
     pub leak_checks: u64,
     pub worker_failures: Vec<String>,
+    /// worker slots that stopped early after many cases that killed the process
+    pub slots_gave_up: u64,
 }
 
-pub fn run_workers(check_id: &str, tier: Tier, seed: u64, workers: u64, limit: Option<u64>, no_min: bool) -> Merged {
+/// What one worker slot produced: the output of every worker process started for it (a slot is
+/// restarted behind a case that killed the whole process) and the cases that did so.
+struct SlotResult {
+    outputs: Vec<std::process::Output>,
+    died_in: Vec<(u64, String)>,
+}
+
+fn run_slot(check_id: &str, tier: Tier, seed: u64, k: u64, workers: u64, limit: Option<u64>, no_min: bool, total: u64) -> SlotResult {
     let exe = std::env::current_exe().expect("current_exe");
-    let mut children = vec![];
-    for k in 0..workers {
-        let mut cmd = std::process::Command::new(&exe);
-        cmd.arg("worker")
+    let mut res = SlotResult { outputs: vec![], died_in: vec![] };
+    let mut start_from = 0u64;
+    for _attempt in 0..12 {
+        let outp = std::process::Command::new(&exe)
+            .arg("worker")
             .arg(check_id)
             .arg(tier.name())
             .arg(seed.to_string())
@@ -429,10 +451,45 @@ pub fn run_workers(check_id: &str, tier: Tier, seed: u64, workers: u64, limit: O
             .arg(workers.to_string())
             .arg(limit.map(|l| l.to_string()).unwrap_or_else(|| "-".into()))
             .arg(if no_min { "nomin" } else { "min" })
+            .arg(start_from.to_string())
             .stdout(std::process::Stdio::piped())
-            .stderr(std::process::Stdio::piped());
-        children.push((k, cmd.spawn().expect("spawn worker")));
+            .stderr(std::process::Stdio::piped())
+            .output()
+            .expect("run worker");
+        let text = String::from_utf8_lossy(&outp.stdout).into_owned();
+        let saw_stats = text.lines().any(|l| l.starts_with("STATS "));
+        let killed = outp.status.code().is_none();
+        let last_i: Option<u64> = text
+            .lines()
+            .filter_map(|l| l.strip_prefix("CASE "))
+            .filter_map(|j| serde_json::from_str::<Value>(j).ok())
+            .filter_map(|v| v["i"].as_u64())
+            .max();
+        let err_tail: String = String::from_utf8_lossy(&outp.stderr).chars().rev().take(300).collect::<String>().chars().rev().collect();
+        res.outputs.push(outp);
+        if saw_stats || !killed {
+            break;
+        }
+        // killed by a signal in the middle of its share: the case it was executing
+        let mut next = k;
+        while next < start_from {
+            next += workers;
+        }
+        if let Some(l) = last_i {
+            next = next.max(l + workers);
+        }
+        if next >= total {
+            break;
+        }
+        res.died_in.push((next, err_tail.replace('\n', " | ")));
+        start_from = next + 1;
     }
+    res
+}
+
+pub fn run_workers(check: &dyn Check, tier: Tier, seed: u64, workers: u64, limit: Option<u64>, no_min: bool) -> Merged {
+    let check_id = check.id();
+    let total = limit.unwrap_or_else(|| check.cases(tier));
     let mut m = Merged {
         cases: BTreeMap::new(),
         replays: vec![],
@@ -443,14 +500,42 @@ pub fn run_workers(check_id: &str, tier: Tier, seed: u64, workers: u64, limit: O
         intercepts: BTreeMap::new(),
         leak_checks: 0,
         worker_failures: vec![],
+        slots_gave_up: 0,
     };
-    // drain every worker concurrently: a worker blocked on a full pipe would stall
-    let readers: Vec<(u64, std::thread::JoinHandle<std::process::Output>)> = children
-        .into_iter()
-        .map(|(k, child)| (k, std::thread::spawn(move || child.wait_with_output().expect("wait worker"))))
+    // one thread per worker slot: drains its worker (a worker blocked on a full pipe would stall)
+    let id_owned = check_id.to_string();
+    let readers: Vec<(u64, std::thread::JoinHandle<SlotResult>)> = (0..workers)
+        .map(|k| {
+            let id = id_owned.clone();
+            (k, std::thread::spawn(move || run_slot(&id, tier, seed, k, workers, limit, no_min, total)))
+        })
         .collect();
     for (k, h) in readers {
-        let outp = h.join().expect("reader thread");
+        let slot = h.join().expect("reader thread");
+        // A case whose simulated run takes the whole process down (stack overflow, abort) cannot
+        // report itself: it is reported here, as a violation, with the generated case as replay.
+        for (i, why) in &slot.died_in {
+            let sig = format!("{}/process-died", check_id);
+            let detail = format!("the worker executing case {} was killed by a signal: {}", i, why);
+            let mut co = CaseOut::default();
+            co.violate(sig.clone(), "a run of the tool ends normally (a stack overflow or abort takes the whole process down)", detail.clone());
+            m.cases.insert(*i, co);
+            m.replays.push(json!({
+                "property": check_id,
+                "check": check.name(),
+                "verif_seed": seed,
+                "case_index": i,
+                "tier": tier.name(),
+                "signature": sig,
+                "clause": "a run of the tool ends normally (a stack overflow or abort takes the whole process down)",
+                "detail": detail,
+                "minimise_attempts": 0,
+                "case": check.gen(seed, *i, tier),
+            }));
+        }
+        let n_out = slot.outputs.len();
+        for (oi, outp) in slot.outputs.into_iter().enumerate() {
+        let last_attempt = oi + 1 == n_out;
         let text = String::from_utf8_lossy(&outp.stdout);
         let mut saw_stats = false;
         for line in text.lines() {
@@ -485,7 +570,11 @@ pub fn run_workers(check_id: &str, tier: Tier, seed: u64, workers: u64, limit: O
                 }
             }
         }
-        if !outp.status.success() || !saw_stats {
+        if last_attempt && outp.status.code().is_none() && !saw_stats && !slot.died_in.is_empty() {
+            // the slot gave up after many deaths: every one of them is already a reported violation
+            eprintln!("NOTE: worker slot {} gave up after {} cases that killed the process; the rest of its share was not evaluated", k, slot.died_in.len());
+            m.slots_gave_up += 1;
+        } else if last_attempt && (!outp.status.success() || !saw_stats) {
             let err = String::from_utf8_lossy(&outp.stderr);
             m.worker_failures.push(format!(
                 "worker {} exited {:?}: {}",
@@ -493,6 +582,7 @@ pub fn run_workers(check_id: &str, tier: Tier, seed: u64, workers: u64, limit: O
                 outp.status.code(),
                 err.chars().rev().take(600).collect::<String>().chars().rev().collect::<String>()
             ));
+        }
         }
     }
     m.replays.sort_by_key(|r| r["case_index"].as_u64().unwrap_or(0));
@@ -513,12 +603,12 @@ pub fn run_check(check: &dyn Check, tier: Tier, seed: u64, limit: Option<u64>) -
     let t0 = Instant::now();
     println!("VERIF_SEED={} check={} property={} tier={}", seed, check.name(), check.id(), tier.name());
     let workers = n_workers();
-    let m = run_workers(check.id(), tier, seed, workers, limit, false);
+    let m = run_workers(check, tier, seed, workers, limit, false);
     let findings = load_findings();
     let total = limit.unwrap_or_else(|| check.cases(tier));
 
     let mut harness_errors: Vec<String> = m.worker_failures.clone();
-    if m.cases.len() as u64 != total {
+    if m.cases.len() as u64 != total && m.slots_gave_up == 0 {
         harness_errors.push(format!("expected {} case results, got {}", total, m.cases.len()));
     }
     let mut counters: BTreeMap<String, u64> = BTreeMap::new();
@@ -570,11 +660,24 @@ pub fn run_check(check: &dyn Check, tier: Tier, seed: u64, limit: Option<u64>) -
             }
         }
     }
-    if total > 0 && discards * 20 > total {
+    // A case is discarded when its fault-free set-up does not behave as the scenario needs (for
+    // example because the tree under test breaks ANOTHER property). Few discards are normal; more
+    // than 5% are reported loudly (and stay in the evidence); only when most of the workload could
+    // not be evaluated is the run itself an error - a check that explored next to nothing must not
+    // say "held".
+    if total > 0 && discards * 2 > total {
         harness_errors.push(format!(
-            "{} of {} generated cases were rejected by the fault-free reference run (>5%): {:?}",
+            "{} of {} generated cases were rejected by the fault-free reference run (>50%): {:?}",
             discards, total, discard_reasons
         ));
+    } else if total > 0 && discards * 20 > total {
+        eprintln!(
+            "NOTE: {} of {} generated cases were discarded by the fault-free reference run (>5%; evaluated {}): {:?}",
+            discards,
+            total,
+            total - discards,
+            discard_reasons
+        );
     }
 
     // replay files for unknown signatures; confirm each in a fresh process
@@ -606,7 +709,8 @@ pub fn run_check(check: &dyn Check, tier: Tier, seed: u64, limit: Option<u64>) -
             .stderr(std::process::Stdio::piped())
             .output()
             .expect("spawn replay");
-        if st.status.code() == Some(1) {
+        let died_again = sig.ends_with("/process-died") && st.status.code().is_none();
+        if st.status.code() == Some(1) || died_again {
             violation_lines.push(format!("VIOLATION property={} replay={}", check.id(), fname));
             println!("  signature: {}", sig);
             println!("  clause:    {}", r["clause"].as_str().unwrap_or(""));
@@ -730,6 +834,28 @@ pub fn replay(checks: &[&dyn Check], file: &str) -> i32 {
         return 2;
     };
     let sig = v["signature"].as_str().unwrap_or("");
+    if sig.ends_with("/process-died") && std::env::var_os("TTG_REPLAY_INNER").is_none() {
+        // the recorded violation is that executing this case takes the whole process down:
+        // execute it in a child and report what becomes of the child
+        let exe = std::env::current_exe().expect("current_exe");
+        let st = std::process::Command::new(exe).arg("replay").arg(file).env("TTG_REPLAY_INNER", "1").stdout(std::process::Stdio::null()).stderr(std::process::Stdio::null()).status();
+        println!("replay {}: recorded signature {}", file, sig);
+        return match st {
+            Ok(st) if st.code().is_none() => {
+                println!("  observed: the process executing the case was killed by a signal again");
+                println!("VIOLATION property={} replay={}", prop, file);
+                1
+            }
+            Ok(_) => {
+                println!("not reproduced");
+                0
+            }
+            Err(e) => {
+                eprintln!("HARNESS-ERROR: cannot start the replay child: {}", e);
+                2
+            }
+        };
+    }
     let mut env = Env::new(&format!("{}-replay", prop));
     let out = check.exec(&mut env, &v["case"]);
     env.cleanup();
@@ -753,9 +879,9 @@ pub fn replay(checks: &[&dyn Check], file: &str) -> i32 {
 /// Determinism proof: the same cases, executed in separate OS processes at
 /// different worker counts, must produce identical event-log digests.
 pub fn determinism(check: &dyn Check, seed: u64, n_cases: u64) -> Result<u64, String> {
-    let a = run_workers(check.id(), Tier::Quick, seed, 1, Some(n_cases), true);
-    let b = run_workers(check.id(), Tier::Quick, seed, 4, Some(n_cases), true);
-    let c = run_workers(check.id(), Tier::Quick, seed, 16, Some(n_cases), true);
+    let a = run_workers(check, Tier::Quick, seed, 1, Some(n_cases), true);
+    let b = run_workers(check, Tier::Quick, seed, 4, Some(n_cases), true);
+    let c = run_workers(check, Tier::Quick, seed, 16, Some(n_cases), true);
     for m in [&a, &b, &c] {
         if !m.worker_failures.is_empty() {
             return Err(format!("worker failure: {:?}", m.worker_failures));
